@@ -110,6 +110,10 @@ _MISSING = object()
 
 def _eq(a, b):
     try:
+        if isinstance(a, float) or isinstance(b, float):
+            import math
+            if isinstance(a, (int, float)) and isinstance(b, (int, float)) and not isinstance(a, bool) and not isinstance(b, bool):
+                return math.isclose(a, b, rel_tol=1e-9, abs_tol=1e-9)
         return bool(a == b)
     except Exception:
         return False
@@ -262,6 +266,36 @@ def oracle(world, op, status, snap, members, events):
             seen.add(x["signature"])
             out.append(x)
     return out
+
+
+def held_oracle(op, bracket, events):
+    """inside / at the end of a USER hold bracket only this is claimed: an old value that is delivered is a value
+    the getter had at the start of some operation of the bracket, or the new value of an earlier delivery"""
+    from c08_world import PAYLOAD, WILL, ATTR, NORMALISE
+    viol = []
+    seen_new = {}
+    for ev in events:
+        if ev.error or not ev.has_payload:
+            continue
+        norm = NORMALISE.get(ev.name, lambda x: x)
+        dictlike = ev.name in ("Info.ValueChanged", "Lib.ItemSet", "Kerning.PairSet", "Groups.GroupSet")
+        key = (id(ev.sender), ATTR[ev.name] + (":%s" % (ev.subject,) if dictlike else ""))
+        cands, known = list(seen_new.get(key, [])), False
+        for snap in bracket:
+            if dictlike:
+                if ("dictall", id(ev.sender)) in snap:
+                    known = True
+                    cands.append(snap[("dictall", id(ev.sender))].get(ev.subject))
+            elif (id(ev.sender), ATTR[ev.name]) in snap:
+                known = True
+                cands.append(snap[(id(ev.sender), ATTR[ev.name])])
+        if known and not any(_eq(norm(ev.old), norm(c)) for c in cands):
+            viol.append(dict(clause="C08/payload-old", detail="under a user hold",
+                             signature="C08/payload-old/%s/%s" % (ev.name, op_name(op)),
+                             op=op, notification=ev.name, payload_old=repr(ev.old)[:200], candidates=repr(cands)[:300]))
+        if ev.name not in WILL:
+            seen_new.setdefault(key, []).append(ev.new)
+    return viol[:1]
 
 
 # ---------------------------------------------------------------------------------------------------
@@ -698,7 +732,7 @@ def _lines_worker(case):
 
 def generate(rng, tier):
     import multiprocessing
-    n, maxops = (260, 26) if tier == "quick" else (5000, 50)
+    n, maxops = (1200, 26) if tier == "quick" else (12000, 50)
     cases = [known_sites_case("memory"), known_sites_case("disk")]
     for i in range(n):
         cases.append(gen_case(rng, maxops))
@@ -810,6 +844,7 @@ def run_world(case, per_op=None):
     try:
         w = W.World(case, tmpd)
         ad = M.Adaptor(w)
+        bracket = []
         for step, op in enumerate(case["ops"]):
             margins_of = None
             try:
@@ -850,6 +885,13 @@ def run_world(case, per_op=None):
                 stats["silent-setters"] = stats.get("silent-setters", 0) + 1
             if held or op[0] in ("hold", "release") or w.user_holds:
                 stats["ops-under-user-hold"] = stats.get("ops-under-user-hold", 0) + 1
+                bracket.append(snap)
+                vs = held_oracle(op, bracket, events) + held_oracle(op, bracket, late)
+                if not w.user_holds:
+                    bracket = []
+            elif status.startswith("err") and name in M.COMPOSITE:
+                # a composite stopped half way by a rejected element: not judged (see ASSUMPTIONS)
+                stats["composite-stopped"] = stats.get("composite-stopped", 0) + 1
                 vs = []
             else:
                 vs = oracle(w, op, status, snap, members, events) + oracle(w, op, status, snap, members, late)
